@@ -184,7 +184,8 @@ def run_shard(shard):
         # scale as the flow factories use): scale underflow at |x| ~ 1e3 or heavily perturbed weights is a modelling
         # hazard of that choice, not a branch-boundary defect -> moderate inputs / parameters only
         fragile = it["kind"] == "tspec" and any(o in ("transformer:Affine", "transformer:Scale") for o in meta["ops"])
-        big = 30.0 if fragile else 1e4
+        # (float32: softplus of the unconstrained scale underflows to 0 below -88 instead of -745, reached by much smaller inputs)
+        big = (30.0 if x64 else 6.0) if fragile else 1e4
         z = np.zeros(meta["shape"], dtype=int)
         t_struct = time.time()
         for mode in modes:
